@@ -62,7 +62,7 @@ def main():
         res["checks_fired"] = fired
         if run_tests:
             rc, out = sh(
-                f"/venv/bin/python -m pytest -ra -q -p no:cacheprovider --timeout=900 --continue-on-collection-errors -n 8 --junitxml={wt}/_junit.xml",
+                f"/venv/bin/python -m pytest -ra -q -p no:cacheprovider --timeout=900 --continue-on-collection-errors -n {os.environ.get('PYTEST_N', '8')} --junitxml={wt}/_junit.xml",
                 cwd=wt, env=env, timeout=3000)
             base = json.load(open("/root/.vp/BASELINE.json"))
             want = set(base["stable_pass"])
